@@ -280,9 +280,12 @@ SpaceX ==
     [] Family = "C11" ->
          {s \in [rhs : {"R2", "R4"}, meth : {"MS", "SS", "DC"}, intg : {"rk", "expl_euler", "radau2", "legendre1"}, N : 1..3, M : 1..2,
                  grid : {"uni", "geo", "fun", "free"}, hz : {"fT", "ft0", "fb"}, seed : {Seed}, cons : {<<"k1", "k5">>}, obj : {<<"o7", "o8", "o1">>, <<"o5", "o6">>},
-                 lT : BOOLEAN, gs : {"none", "T", "t0"}, scl : {"s0"}, when : {"before"}] :
+                 lT : BOOLEAN, gs : {"none", "T", "t0"}, scl : {"s0", "s1"}, when : {"before", "after"}] :
               /\ (s.meth = "DC" <=> s.intg \in {"radau2", "legendre1"})
-              /\ (s.lT => s.grid \in {"uni", "geo"})}
+              /\ (s.lT => s.grid \in {"uni", "geo"})
+              \* thin slices: the horizon guess given after a transcription; scaled constraints whose bounds mention T
+              /\ (s.when = "after" => s.gs \in {"T", "t0"} /\ s.N = 2 /\ s.M = 1 /\ s.scl = "s0")
+              /\ (s.scl = "s1" => s.gs = "none" /\ s.N = 2 /\ s.M = 1 /\ s.intg \in {"rk", "radau2"})}
     [] Family = "C09" ->
          {s \in [rhs : {"R2", "R3", "R4", "R8", "R9", "RA"}, meth : {"MS", "SS", "DC"}, intg : {"rk", "radau2"}, N : 1..3, M : 1..2, grid : {"uni", "fun"},
                  hz : {"num", "pT", "fT"}, seed : {Seed, Seed + 1}, cons : {<<"kP", "kQ">>, <<"kP", "kN">>}, obj : {<<"oP", "o3">>, <<"o6", "oP">>}, lT : {FALSE},
